@@ -5,8 +5,13 @@ LBP code mapping and histogram (lbp.py, _lbp.cpp), `moments` (moments.py), SURF 
 -/
 import Mahotas.Model.Basic
 import Mahotas.Generated.Tables
+import Mahotas.Model.C19Tas
+import Mahotas.Model.C19Lbp
 namespace Mahotas.C19
 open Mahotas Mahotas.Generated
+
+local instance : NatCast Float := ⟨Float.ofNat⟩
+local instance : IntCast Float := ⟨Float.ofInt⟩
 
 /-! ## co-occurrence -/
 
@@ -205,6 +210,54 @@ def haralick13 (m : Nat) (c : List Nat) : List Float :=
 /-- `ignore_zeros`: first row and column cleared -/
 def stripZeros (m : Nat) (c : List Nat) : List Nat :=
   (List.range (m * m)).map fun k => if k / m == 0 || k % m == 0 then 0 else c.getD k 0
+
+/-! ### the 14th feature: Haralick's matrix `Q` (round 4)
+
+`f14 = (second largest eigenvalue of Q)^{1/2}`, `Q(i,j) = Σ_k p(i,k) p(j,k) / (p_x(i) p_y(k))` with the row marginal
+`p_x(i) = Σ_k p(i,k)` (`py` in `texture.py`) and the column marginal `p_y(k) = Σ_i p(i,k)` (`px` in `texture.py`).
+`texture.py` amputates the empty rows/columns and takes the eigenvalues of the symmetric matrix `A Aᵀ`,
+`A(i,k) = p(i,k)/sqrt(p_x(i) p_y(k))`, which is similar to `Q` (`Q = D⁻¹ᐟ² (A Aᵀ) D¹ᐟ²`, `D = diag p_x`).
+The model is `Q` itself (generic in the scalar type; terms of an empty row/column are dropped); the eigenvalues are
+taken by the harness (numpy) from the model's matrix. -/
+
+/-- `Q(i,j)` given the row marginals `r` and column marginals `c` -/
+def qEntryG {α : Type} [Add α] [Mul α] [Div α] [BEq α] (zero : α) (m : Nat) (P : Nat → Nat → α) (r c : List α)
+    (i j : Nat) : α :=
+  gsum zero ((List.range m).map fun k =>
+    if r.getD i zero == zero || c.getD k zero == zero then zero
+    else P i k * P j k / (r.getD i zero * c.getD k zero))
+
+/-- Haralick's `Q` of the normalised matrix `P` -/
+def qMatG {α : Type} [Add α] [Mul α] [Div α] [BEq α] (zero : α) (m : Nat) (P : Nat → Nat → α) (i j : Nat) : α :=
+  qEntryG zero m P (rowSumG zero m P) (colSumG zero m P) i j
+
+/-- `Q` of a count matrix at `Float`, row-major -/
+def haralickQ (m : Nat) (c : List Nat) : List Float :=
+  let P := matAt 0.0 m (normMat Float.ofNat c)
+  let r := rowSumG 0.0 m P
+  let cs := colSumG 0.0 m P
+  (allPairs m).map fun ij => qEntryG 0.0 m P r cs ij.1 ij.2
+
+/-! ### `return_mean` / `return_mean_ptp` (round 4)
+
+`features.mean(axis=0)` adds the rows one after the other (first row, `+=` second row, …) and divides by the number of
+rows; `np.ptp(features, axis=0)` is `maximum.reduce − minimum.reduce` along the same axis. Generic in the scalar type. -/
+
+/-- `np.add.reduce(rows, axis=0)` -/
+def colFoldG {α : Type} (f : α → α → α) : List (List α) → List α
+  | [] => []
+  | r0 :: rest => rest.foldl (fun acc r => List.zipWith f acc r) r0
+
+/-- `features.mean(axis=0)` -/
+def colMeanG {α : Type} [Add α] [Div α] (cast : Nat → α) (rows : List (List α)) : List α :=
+  (colFoldG (· + ·) rows).map (· / cast rows.length)
+
+def maxG {α : Type} [LT α] [DecidableLT α] (a b : α) : α := if a < b then b else a
+def minG {α : Type} [LT α] [DecidableLT α] (a b : α) : α := if b < a then b else a
+
+/-- `np.ptp(features, axis=0)` (no NaN) -/
+def colPtpG {α : Type} [Sub α] [LT α] [DecidableLT α] (rows : List (List α)) : List α :=
+  List.zipWith (· - ·) (colFoldG maxG rows) (colFoldG minG rows)
 
 /-! ## LBP code mapping (`_lbp.cpp`) -/
 
@@ -527,6 +580,28 @@ def handle (a : Args) : String :=
     s!"z={showFloats (zs.flatMap fun z => [z.1, z.2])} abs={showFloats (zs.map fun z => Float.sqrt (cxNormSq z))} nsel={nsel}"
   | "tables" =>
     s!"d2={showInts deltas2d.flatten} d3={showInts deltas3d.flatten} fact={showNats factorialTable}"
+  | "harq" =>
+    let shape := a.nats "shape"
+    let im : Img Int := { shape := shape, data := (a.ints "data").toArray }
+    let m := a.nat "m"
+    let ndirs := if shape.length == 2 then deltas2d.length else deltas3d.length
+    let qs := (List.range ndirs).map fun dir =>
+      let c := (symFold m (coocModel m im (direction shape.length dir (a.int "dist" 1)))).toList
+      let c := if a.nat "iz" == 1 then stripZeros m c else c
+      haralickQ m c
+    s!"q={showFloats qs.flatten} ndirs={ndirs}"
+  | "harmean" =>
+    -- `return_mean` / `return_mean_ptp` of a feature matrix (rows = directions)
+    let rows := chunk (a.nat "w") (a.floats "feats")
+    s!"mean={showFloats (colMeanG Float.ofNat rows)} ptp={showFloats (colPtpG rows)}"
+  | "tas" => C19Tas.handle a
+  | "lbpt" =>
+    -- `lbp_transform(image, radius, points, ignore_zeros, preserve_shape=False)`: sampling, raw codes, `_lbp.map`
+    let im : Img Float := { shape := a.nats "shape", data := (a.floats "data").toArray }
+    let radius := (a.floats "radius").headD 1.0
+    let dydx := (a.floats "sin").zip (a.floats "cos")
+    let raw := C19Lbp.rawCodes C18.flF im radius dydx (a.nat "iz" == 1)
+    s!"raw={showNats raw} codes={showNats (raw.map (lbpMap dydx.length))}"
   | k => s!"error=unknown-kind-{k}"
 
 end Mahotas.C19
